@@ -1137,6 +1137,17 @@ def dict_field_keys(repo, tier):
             else:
                 obls.append(ground_obligation(oid, False, f"mapping keys of {key} are not shown to be code constants and the field is not a recorded F6 site: "
                                               + "; ".join(why)[:300], DT_PY, kind="dict-keys", backend="dataflow", definite=False))
+    # Any-typed slots: each must be one whose stored values are under a store-site obligation (cell normalisers) -- a new Any-typed
+    # field joins the serialised registry silently, with nothing known about the kinds stored into it
+    covered_any = {"XlsSheet.data", "XlsxSheet.data", "OdsSheet.data", "TableData.data"}
+
+    def has_any(sh):
+        return sh == ("any",) or any(has_any(x) for x in sh[1:] if isinstance(x, tuple))
+    extra = sorted(f"{n}.{f}" for n, info in d["classes"].items() for f, sh, _ in info["fields"] if has_any(sh) and f"{n}.{f}" not in covered_any)
+    obls.append(ground_obligation("C05/data_types.py::registry/registry#any-typed-fields-have-store-site-obligations", not extra,
+                                  ("Any-typed field(s) without a store-site obligation: " + ", ".join(extra)) if extra else
+                                  "Any-typed fields: " + ", ".join(sorted(covered_any)) + " (TableData.data receives sheet rows / str tables: BOUNDED by the native cell-kind scopes)",
+                                  DT_PY, kind="registry", backend="ground", definite=False))
     return {"obligations": obls}
 
 
